@@ -134,6 +134,10 @@ def c13_cases():
             bi = (ai + 1 + H("partner", ai, r) % (n - 1)) % n
             for k in range(1, na + 3):
                 cases.append(("tok", ai, bi, k))
+        # the same program in both actors: both pass through the same helpers, so a
+        # window inside one helper is met by construction
+        for k in range(1, na + 3):
+            cases.append(("tok", ai, ai, k))
         bi = (ai + 1 + H("genpartner", ai) % (n - 1)) % n
         for k in range(1, 700, 9):
             cases.append(("gen", ai, bi, k))
@@ -281,14 +285,22 @@ def ext_cases(prop):
             for k in range(1, 70 * max(4, _ntok(items)), 5):
                 cases.append((si, k))
     else:
-        # one pre-emption at every 5th line event of A's parse, B (a partner
-        # with clashing names) runs to completion in between
+        # one pre-emption inside A's parse at Q evenly spaced line events (Q chosen so
+        # that the spacing is about 8 line events for a partner with clashing names
+        # and about 3 for the same program in both actors - both then pass through
+        # the same helpers, so a window inside one helper is met by construction);
+        # the position is resolved from A's solo step count when the case is run
         progs = _pair_programs()
         n = len(progs)
         for ai in range(n):
+            nt = max(4, _ntok(progs[ai]))
             bi = (ai + 1 + H("linepartner", ai) % (n - 1)) % n
-            for k in range(1, 70 * max(4, _ntok(progs[ai])), 5):
-                cases.append((ai, bi, k))
+            q = 15 * nt
+            for i in range(q):
+                cases.append((ai, bi, i, q))
+            q = 40 * nt
+            for i in range(q):
+                cases.append((ai, ai, i, q))
     _CACHE[key] = cases
     return cases
 
@@ -307,7 +319,7 @@ def ext_spec(prop, j):
         ]
         return {"property": "C12", "mode": "token", "check_fresh": True, "policy": {"kind": "rtc"},
                 "actors": [{"reuse": True, "ops": ops}], "swarm": {"faulty": True, "style": "sweep:dense-line-abort"}}
-    ai, bi, k = c
+    ai, bi, qi, q = c
     progs = _pair_programs()
     actors = [
         {"reuse": False, "ops": [{"op": "parse", "filename": "act0.c", "items": list(progs[ai]), "obj": "P1" if j % 2 else "P0"}], "kind": "dense"},
@@ -315,5 +327,6 @@ def ext_spec(prop, j):
     ]
     for i, a in enumerate(actors):
         a["markers"] = {"strings": ["act%d.c" % i], "line_block": None, "not_for": {}}
-    return {"property": "C13", "mode": "line", "policy": {"kind": "sweep"}, "schedule": [[0, k], [1, 1 << 40], [0, 1 << 40]],
+    return {"property": "C13", "mode": "line", "policy": {"kind": "sweep"}, "schedule": [[0, 1 << 40], [1, 1 << 40]],
+            "schedule_at_fraction": [qi, q],
             "actors": actors, "check_fresh": False, "swarm": {"faulty": False, "theme": "sweep:dense-line"}}
